@@ -121,6 +121,23 @@ pub struct Sk<'a> {
 #[derive(Clone)]
 struct InlFrame { done: String, ret: String, scope_base: usize, temps_base: usize, loop_base: usize, ret_result: bool }
 
+/// `pat` with `*` = any run of identifier characters (possibly empty); everything else literal
+fn glob_ident(pat: &str, text: &str) -> bool {
+    fn rec(p: &[char], t: &[char]) -> bool {
+        match p.first() {
+            None => t.is_empty(),
+            Some('*') => {
+                if rec(&p[1..], t) { return true; }
+                match t.first() { Some(c) if c.is_alphanumeric() || *c == '_' => rec(p, &t[1..]), _ => false }
+            }
+            Some(c) => t.first() == Some(c) && rec(&p[1..], &t[1..]),
+        }
+    }
+    let p: Vec<char> = pat.chars().collect();
+    let t: Vec<char> = text.chars().collect();
+    rec(&p, &t)
+}
+
 fn last_seg(p: &syn::Path) -> String {
     p.segments.last().map(|s| s.ident.to_string()).unwrap_or_default()
 }
@@ -563,13 +580,10 @@ impl<'a> Sk<'a> {
     fn tracked_cond(&self, t: &str) -> Option<String> {
         let (tn, tcore) = match t.strip_prefix('!') { Some(c) => (true, c.trim()), None => (false, t) };
         for (sub, expr) in &self.cfg.tracked {
-            if t == sub.as_str() {
-                return Some(expr.clone());
-            }
-            // the same condition with the opposite polarity
+            // `*` in a rule stands for any identifier characters (variable names are incidental)
             let (sn, score) = match sub.strip_prefix('!') { Some(c) => (true, c.trim()), None => (false, sub.as_str()) };
-            if tcore == score && tn != sn {
-                return Some(format!("!({})", expr));
+            if glob_ident(score, tcore) {
+                return Some(if tn == sn { expr.clone() } else { format!("!({})", expr) });
             }
         }
         None
@@ -580,7 +594,7 @@ impl<'a> Sk<'a> {
         if applied {
             return;
         }
-        let mut cores: Vec<String> = self.cfg.tracked.iter().map(|(s, _)| s.trim_start_matches('!').trim().to_string()).collect();
+        let mut cores: Vec<String> = self.cfg.tracked.iter().map(|(s, _)| s.trim_start_matches('!').trim().split('*').max_by_key(|x| x.len()).unwrap_or("").to_string()).collect();
         cores.extend(self.cfg.tracked_arms.iter().map(|(s, _, _)| s.trim_start_matches('&').trim().to_string()));
         for c in cores {
             if !c.is_empty() && text.contains(c.as_str()) {
@@ -766,9 +780,13 @@ impl<'a> Sk<'a> {
         }
         // markers
         for (mm, sub, ev, req) in self.cfg.markers.clone() {
-            if mm == name && recv_text.contains(sub.as_str()) {
-                let (strict, reqt) = match req.strip_prefix('!') { Some(r) if req.starts_with("!!") => (true, r.to_string()), _ => (false, req.clone()) };
-                let has = reqt.is_empty() || call_text.replace(' ', "").contains(&reqt.replace(' ', ""));
+            if mm != name {
+                continue;
+            }
+            let (strict, reqt) = match req.strip_prefix('!') { Some(r) if req.starts_with("!!") => (true, r.to_string()), _ => (false, req.clone()) };
+            let has = reqt.is_empty() || call_text.replace(' ', "").contains(&reqt.replace(' ', ""));
+            // the predicate text is the semantic content of the marker: it fires on any receiver name
+            if recv_text.contains(sub.as_str()) || (!reqt.is_empty() && has) {
                 if !has {
                     if strict {
                         self.errors.push(format!("{}:{}: `{}` has the marker shape `{}` but not the expected predicate `{}`", self.src.rel, at, call_text, ev, reqt));
